@@ -20,7 +20,7 @@ use rand::Rng;
 use serde_json::json;
 
 #[derive(Debug, Clone, Copy, PartialEq)]
-enum Ra { Absent, Authentic, SigFlip, OtherSession, OtherItems, UntrustedCa, NoX5, GarbageX5, AttachedPayload, WrongAlg, OtherKey, ImpostorThenGenuine, GenuineThenCa, OtherSessionAttached }
+enum Ra { Absent, Authentic, SigFlip, OtherSession, OtherItems, UntrustedCa, NoX5, GarbageX5, AttachedPayload, WrongAlg, OtherKey, ImpostorThenGenuine, GenuineThenCa, OtherSessionAttached, P384ThenSelfMade }
 
 pub fn items_request_bytes(rng: &mut StdRng, noncanonical: bool) -> Vec<u8> {
     let ids = ["family_name", "given_name", "age_over_18", "portrait"];
@@ -83,14 +83,14 @@ pub fn run(ctx: &mut Ctx) {
             ("unrelated-reader-ca", registry(vec![(other_pki.reader_ca.clone(), TrustPurpose::ReaderCa)])),
             ("mixed", registry(vec![(pki.iaca.clone(), TrustPurpose::Iaca), (other_pki.reader_ca.clone(), TrustPurpose::ReaderCa), (pki.reader_ca.clone(), TrustPurpose::ReaderCa)])),
         ];
-        let kinds = [Ra::Absent, Ra::Authentic, Ra::SigFlip, Ra::OtherSession, Ra::OtherItems, Ra::UntrustedCa, Ra::NoX5, Ra::GarbageX5, Ra::AttachedPayload, Ra::WrongAlg, Ra::OtherKey, Ra::ImpostorThenGenuine, Ra::GenuineThenCa, Ra::OtherSessionAttached];
+        let kinds = [Ra::Absent, Ra::Authentic, Ra::SigFlip, Ra::OtherSession, Ra::OtherItems, Ra::UntrustedCa, Ra::NoX5, Ra::GarbageX5, Ra::AttachedPayload, Ra::WrongAlg, Ra::OtherKey, Ra::ImpostorThenGenuine, Ra::GenuineThenCa, Ra::OtherSessionAttached, Ra::P384ThenSelfMade];
         let ncases = if ctx.thorough { 120 } else { 40 };
         // fixed patterns of several document requests (the verdict is over the WHOLE message)
         let patterns: Vec<Vec<Ra>> = vec![
             vec![Ra::Absent, Ra::Authentic], vec![Ra::Authentic, Ra::Absent], vec![Ra::Absent, Ra::Absent, Ra::Authentic], vec![Ra::Authentic, Ra::Authentic],
             vec![Ra::NoX5, Ra::Authentic], vec![Ra::GarbageX5, Ra::Authentic], vec![Ra::SigFlip, Ra::Authentic], vec![Ra::Authentic, Ra::SigFlip],
             vec![Ra::UntrustedCa, Ra::Authentic], vec![Ra::Authentic, Ra::OtherSession], vec![Ra::Authentic, Ra::Authentic, Ra::OtherItems], vec![Ra::AttachedPayload, Ra::Authentic],
-            vec![Ra::Authentic, Ra::ImpostorThenGenuine], vec![Ra::OtherKey, Ra::Authentic, Ra::Authentic],
+            vec![Ra::Authentic, Ra::ImpostorThenGenuine], vec![Ra::OtherKey, Ra::Authentic, Ra::Authentic], vec![Ra::P384ThenSelfMade], vec![Ra::Authentic, Ra::P384ThenSelfMade],
         ];
         let ncases = ncases + patterns.len();
         for ci in 0..ncases {
@@ -126,6 +126,15 @@ pub fn run(ctx: &mut Ctx) {
                     Ra::ImpostorThenGenuine => Some(reader_auth(&other_pki.reader_key, None, Some(arr(vec![bytes(&other_pki.reader.to_der().unwrap()), bytes(&reader_der)])), -7, &payload, false)),
                     // x5chain [genuine reader certificate, its CA certificate], signed by the genuine reader
                     Ra::GenuineThenCa => Some(reader_auth(&pki.reader_key, None, Some(arr(vec![bytes(&reader_der), bytes(&pki.reader_ca.to_der().unwrap())])), -7, &payload, false)),
+                    // x5chain [a TRUSTED reader certificate whose key is on P-384 (unusable for ES256), a self-made P-256
+                    // certificate], signed with the self-made key
+                    Ra::P384ThenSelfMade => {
+                        let k384 = p384::ecdsa::SigningKey::random(&mut rng);
+                        match pki::leaf_cert_p384(&k384, &pki.reader_ca_key, "CN=Test Reader CA,C=US", "CN=Test Reader 384,C=US", pki::EKU_READER, 44) {
+                            Some(c384) => Some(reader_auth(&other_pki.reader_key, None, Some(arr(vec![bytes(&c384.to_der().unwrap()), bytes(&other_pki.reader.to_der().unwrap())])), -7, &payload, false)),
+                            None => None,
+                        }
+                    }
                     // another session's authentic readerAuth replayed with THAT session's ReaderAuthenticationBytes attached
                     Ra::OtherSessionAttached => Some(reader_auth(&pki.reader_key, Some(reader_der), None, -7, &rab(&de2, &erk2, &items), true)),
                 };
